@@ -9,7 +9,7 @@ after the prefix `pre` of the trace whose blocking state is `f`:
 * in mutex `m` iff it is free and `k ∈ mtxPay m`;
 * in wait group `w` iff the adder has not waited yet and a kid that is done gave it back;
 * at the spawn of `u` iff `u` is spawned and not started and `k ∈ spawnPay u`.
-`Good S pre o f` says that the ownership machine's state `o` is exactly that (`o.loc k = l ↔ Exp … l k`),
+`GoodT S pre o f` says that the ownership machine's state `o` is exactly that (`o.loc k = l ↔ Exp … l k`),
 plus the bookkeeping (message counters, wait-group counters) that keeps it true.
 -/
 import DastardV.Lemmas.C17TypedA
@@ -34,7 +34,7 @@ def Exp (S : System) (pre : Trace) (f : FSt) : Loc → Tok → Prop
   | .wgb w, k => ¬ waited S pre w ∧ ∃ u, u ∈ S.kids w ∧ Ev.wgDone w ∈ proj pre u ∧ k ∈ S.sp.donePay w u
   | .spw u, k => (f.spawned u = true ∧ f.started u = false) ∧ k ∈ S.sp.spawnPay u
 
-structure Good (S : System) (pre : Trace) (o : OSt) (f : FSt) : Prop where
+structure GoodT (S : System) (pre : Trace) (o : OSt) (f : FSt) : Prop where
   loc : ∀ k l, o.loc k = l ↔ Exp S pre f l k
   ns : ∀ c, o.nsend c = f.nsend c
   nr : ∀ c, o.nrecv c = f.nrecv c
@@ -60,7 +60,7 @@ theorem mem_H0 (S : System) (ok : S.OK) (t : Tid) (k : Tok) : k ∈ S.H0 t ↔ S
   · rintro ⟨_, h⟩; exact of_decide_eq_true (by simpa using h)
   · intro h; exact ⟨(ok.init_thr k t h).2, by simp [h]⟩
 
-theorem Good.init (S : System) (ok : S.OK) : Good S [] (OSt.init S.sp) FSt.init where
+theorem GoodT.init (S : System) (ok : S.OK) : GoodT S [] (OSt.init S.sp) FSt.init where
   loc := by
     intro k l
     show S.sp.init k = l ↔ _
@@ -233,7 +233,7 @@ theorem doneCount_snoc_done (S : System) (ok : S.OK) (pre : Trace) (t : Tid) (w 
     rw [proj_snoc_ne pre t u _ hu]
 
 /-- the wait-group bookkeeping is untouched by an event that is no wait-group operation -/
-theorem wg_frame {S : System} {pre : Trace} {o : OSt} {f f' : FSt} (g : Good S pre o f) (t : Tid) (e : Ev)
+theorem wg_frame {S : System} {pre : Trace} {o : OSt} {f f' : FSt} (g : GoodT S pre o f) (t : Tid) (e : Ev)
     (hc : f'.cnt = f.cnt)
     (hA : ∀ w, e ≠ .wgAdd w) (hD : ∀ w, e ≠ .wgDone w) (hW : ∀ w, e ≠ .wgWait w) :
     (∀ w, ¬ waited S (pre ++ [(t, e)]) w →
